@@ -143,8 +143,9 @@ def work(item):
                 for k in range(nx - 1):
                     viol.append((ts[k + 1] - ts[k]) * (nx - 1) != conv.conv(lb[0]) - conv.conv(la[0]))
             else:
-                cand('grid-log:nx=%d:shape' % nx, 'log grid nodes are not exp(.) of an affine function of log a, log b')
+                cand('grid-log:shape', 'log grid nodes are not computed as exp(.) of an affine function of log a, log b (first seen at nx=%d); in exact reals with log/exp uninterpreted this cannot be shown equal to the documented nodes' % nx, shape=True)
                 okp = False
+                continue           # without the documented shape the uninterpreted-function model decides nothing: the candidate is confirmed natively
             r, m, _ = solver.check(p.pc, conv=conv, extra=ax + [za >= lim, z3.Or(viol)], label='log grid nx=%d: ends, monotone, equally spaced in log x (log/exp as monotone inverse UFs, %d lemma instances)' % (nx, len(ax)), want_model=True)
             if r == 'sat':
                 cand('grid-log:nx=%d' % nx, 'log grid is not {exp(log a + (log b - log a)k/(nx-1))}', input=modelvals(m, conv, ['a', 'b']))
@@ -281,7 +282,27 @@ def replay(chk, h, c):
         xs = o['xs']
         want = [np.exp(np.log(a) + (np.log(b) - np.log(a)) * k / (nx - 1)) for k in range(nx)]
         dev = max(abs(u - v) / abs(v) for u, v in zip(xs, want))
-        return (ret != 0) or dev > 1e-9, dev
+        if (ret != 0) or dev > 1e-9:
+            return True, dev
+        if c.get('shape'):
+            # a differently shaped but real-equivalent formula can only differ by rounding: the property allows "a few units in the last place" at the
+            # end node for EVERY nx, so the native confirmation looks at large node counts (allowance: 8 (1+|log a|+|log b|) ulp of b, which
+            # covers exp(log b) itself on the unmodified code)
+            worst = 0.0
+            for (a_, b_) in ((1.0, 10.0), (1e-3, 1e3), (0.5, 2.0), (3.0, 7.0e5)):
+                for n_ in (1000, 20000, 200000):
+                    ret, o = h.native('h_grid', [I(n_), D(a_), D(b_), I(1), Buf('xs', n=n_)])
+                    if ret != 0:
+                        return True, float('inf')
+                    xs = o['xs']
+                    ulps = abs(xs[-1] - b_) / np.spacing(b_)
+                    allow = 8 * (1 + abs(np.log(a_)) + abs(np.log(b_)))
+                    worst = max(worst, ulps / allow)
+                    if ulps > allow or any(xs[k] > xs[k + 1] for k in range(n_ - 1)) or xs[0] != a_:
+                        c['native'] = {'a': a_, 'b': b_, 'nx': n_, 'last_node_off_b_by_ulp': float(ulps), 'allowance_ulp': float(allow)}
+                        return True, float(ulps)
+            return False, worst
+        return False, dev
     if kind == 'user':
         ln = c['ln']
         rng = np.random.RandomState(chk.seed)
@@ -342,7 +363,7 @@ def main(tier):
         seen.add(c['key'])
         ok, dev = safe_replay(replay, chk, h, c)
         if ok:
-            chk.report(c['key'], '%s; reproduced natively' % c['what'], c)
+            chk.report(c['key'], '%s; reproduced natively%s' % (c['what'], (' (%r)' % c['native']) if 'native' in c else ''), c)
         else:
             chk.broken_q('counterexample for %s did not reproduce natively: encoding discrepancy' % c['key'])
     return chk.finish()
